@@ -77,7 +77,13 @@ MUTATIONS = {
         "        layer.write(&actual_path, &contents).map_err(|err| LayeredFilesystemError::WriteError(actual_path, err.to_string()))\n"
         "    }\n\n    pub fn write_text_archive(",
         "write_archive decides compression by the LOCALIZED name"),
+    "release-only-endian": (
+        "let archive = BinArchive::from_bytes(&bytes, self.endian)?;",
+        "let e = if cfg!(debug_assertions) { self.endian } else { Endian::Big };\n"
+        "        let archive = BinArchive::from_bytes(&bytes, e)?;",
+        "read_archive parses big-endian in RELEASE builds only (invisible to the debug-profile streams)"),
 }
+
 
 
 def sh(cmd, **kw):
